@@ -127,6 +127,14 @@ def recon_tables():
     if raw_names + quoted_names != 2 or (raw_names and quoted_names):
         raise ExtractError(f"printer: attribute name writing not recognised (raw={raw_names}, quoted={quoted_names})")
 
+    rec = src("api/formats/swimos_recon/src/recon_parser/record/mod.rs")
+    fin_ident = len(re.findall(r"fn attr_name_final\(input: Span<'_>\) -> IResult<Span<'_>, Cow<'_, str>> \{\s*"
+                               r"map\(complete::identifier, Cow::Borrowed\)\(input\)\s*\}", rec))
+    fin_both = len(re.findall(r"fn attr_name_final\(input: Span<'_>\) -> IResult<Span<'_>, Cow<'_, str>> \{\s*"
+                              r"alt\(\(string_literal, map\(complete::identifier, Cow::Borrowed\)\)\)\(input\)\s*\}", rec))
+    if fin_ident + fin_both != 1:
+        raise ExtractError("record/mod.rs: attr_name_final not recognised")
+
     def words_lean(ws):
         return "[" + ", ".join('"' + w + '".toList' for w in ws) + "]"
 
@@ -145,6 +153,8 @@ def recon_tables():
             f"def newLine : Nat := {10 if nl == chr(92) + 'n' else -1}\n"
             f"/-- `true` while the printers write attribute names raw (`@{{}}`, finding F7); `false` once they quote them. -/\n"
             f"def attrNamesRaw : Bool := {'true' if raw_names else 'false'}\n"
+            "/-- `attr_name_final` (attribute at the very end of a document) accepts a quoted name. -/\n"
+            f"def finalAttrNameQuoted : Bool := {'true' if fin_both else 'false'}\n"
             "end SwimVerif.Generated.Recon\n")
 
 
